@@ -1,49 +1,501 @@
-(* GErrRaceProofs.v — derivations never write a shared object (lemmas behind Props/C15.v). *)
+(* GErrRaceProofs.v — the instrumented CloneBase of GErrRace.v computes GErrModel.clone_base
+   (erasure), its trace only writes the clone, and hence derivations never write a shared
+   object (lemmas behind the concurrency part of Props/C15.v). *)
 From Coq Require Import NArith List Bool Lia PeanoNat.
 From GT Require Import Base.GErrStr.
 From GT Require Import GErrModel GErrSpec GErrProofs GErrRace.
 Import ListNotations.
 
-Lemma call_no_shared_write xw st v m a n :
-  n <= length st -> existsb (is_shared_write n) (call_accesses xw st v m a) = false.
+(* ---------------------------------------------------------------- the monad *)
+Lemma bind_st A B (m : M A) (k : A -> M B) c :
+  run_st (bind m k) c = run_st (k (run_val m c)) (run_st m c).
 Proof.
-  intros H. unfold call_accesses. destruct (as_gerror v); [|reflexivity].
-  destruct (w_guard (wt_of xw v m) && is_gerr_val (a_err a)); [reflexivity|].
-  simpl. rewrite orb_false_r. apply Nat.ltb_ge. exact H.
+  unfold run_st, run_val, bind. destruct (m c) as [[a c1] t1]. simpl.
+  destruct (k a c1) as [[b c2] t2]. reflexivity.
 Qed.
 
-Lemma derive_no_shared_write xw ch : forall st v n,
-  n <= length st -> existsb (is_shared_write n) (derive_accesses xw st v ch) = false.
+Lemma bind_val A B (m : M A) (k : A -> M B) c :
+  run_val (bind m k) c = run_val (k (run_val m c)) (run_st m c).
 Proof.
-  induction ch as [|[m a] ch IH]; intros st v n H; simpl; [reflexivity|].
-  rewrite existsb_app, (call_no_shared_write xw st v m a n H). simpl.
-  destruct (call xw st v m a) as [[st' v']|] eqn:C; [|reflexivity].
-  apply IH. destruct (call_extends _ _ _ _ _ _ _ C) as [ext ->]. rewrite app_length. lia.
+  unfold run_st, run_val, bind. destruct (m c) as [[a c1] t1]. simpl.
+  destruct (k a c1) as [[b c2] t2]. reflexivity.
 Qed.
 
-Lemma thread_no_shared_write xw jobs : forall st n,
-  n <= length st -> existsb (is_shared_write n) (thread_accesses xw st jobs) = false.
+Lemma bind_tr A B (m : M A) (k : A -> M B) c :
+  run_tr (bind m k) c = run_tr m c ++ run_tr (k (run_val m c)) (run_st m c).
 Proof.
-  induction jobs as [|[v ch] jobs IH]; intros st n H; simpl; [reflexivity|].
-  rewrite existsb_app, (derive_no_shared_write xw ch st v n H). simpl.
-  destruct (derive xw st v ch) as [[st' r]|] eqn:D; [|reflexivity].
-  apply IH. destruct (derive_extends _ _ _ _ _ _ D) as [ext ->]. rewrite app_length. lia.
+  unfold run_tr, run_st, run_val, bind. destruct (m c) as [[a c1] t1]. simpl.
+  destruct (k a c1) as [[b c2] t2]. reflexivity.
+Qed.
+
+Lemma seq_st A (m : M unit) (k : M A) c : run_st (andthen m k) c = run_st k (run_st m c).
+Proof. unfold andthen. apply bind_st. Qed.
+
+Lemma seq_tr A (m : M unit) (k : M A) c : run_tr (andthen m k) c = run_tr m c ++ run_tr k (run_st m c).
+Proof. unfold andthen. apply bind_tr. Qed.
+
+(* ---------------------------------------------------------------- what each block does to
+   the object under construction *)
+Ltac mrun :=
+  unfold run_st, run_val, andthen, bind, rd_clone, rd_base, wr_clone, ret, skip;
+  cbn [get_field set_field g_name g_msg g_src g_dtag g_stack g_fref g_serr g_later g_isfac
+       as_s as_k as_v as_l as_b fst snd].
+Lemma blk_fref_st bi base bp c : run_st (blk_fref bi base bp) c = c.
+Proof. unfold blk_fref, run_st, bind, rd_base, ret. simpl. destruct (is_nil (g_fref base)); reflexivity. Qed.
+
+Lemma blk_fref_val bi base bp c :
+  run_val (blk_fref bi base bp) c = if is_nil (g_fref base) then bp else g_fref base.
+Proof. unfold blk_fref, run_val, bind, rd_base, ret. simpl. destruct (is_nil (g_fref base)); reflexivity. Qed.
+
+Lemma blk_literal_st bi fresh base fref c :
+  run_st (blk_literal bi fresh base fref) c
+  = mkG (g_name base) (g_msg base) (g_src base) (g_dtag base) (g_stack base) fref (g_serr base) [] false.
+Proof. reflexivity. Qed.
+
+Lemma blk_source_st fresh src n m s d k f e l b :
+  run_st (blk_source fresh src) (mkG n m s d k f e l b)
+  = mkG n m (if nonempty src && is_empty s then src else s) d k f e l b.
+Proof. unfold blk_source. destruct (nonempty src); [|reflexivity]. mrun. destruct (is_empty s); reflexivity. Qed.
+
+Lemma blk_dtag_st fresh dtag n m s d k f e l b :
+  run_st (blk_dtag fresh dtag) (mkG n m s d k f e l b)
+  = mkG n m s (if is_empty dtag then d else if is_empty d then dtag else d ++ dash ++ dtag) k f e l b.
+Proof. unfold blk_dtag. destruct (is_empty dtag); [reflexivity|]. mrun. destruct (is_empty d); reflexivity. Qed.
+
+Lemma blk_msg_st fresh ext n m s d k f e l b :
+  run_st (blk_msg fresh ext) (mkG n m s d k f e l b)
+  = mkG n (if is_empty (trim_space ext) then m
+           else if is_empty m then trim_space ext else m ++ sp ++ trim_space ext) s d k f e l b.
+Proof.
+  unfold blk_msg. destruct (is_empty (trim_space ext)); [reflexivity|].
+  mrun. destruct (is_empty m); reflexivity.
+Qed.
+
+Lemma blk_inherit_st bi fresh base ep n m s d k f e l b :
+  run_st (blk_inherit bi fresh base ep) (mkG n m s d k f e l b)
+  = mkG n m s d k (if is_nil f && g_isfac base then ep else f) e l b.
+Proof.
+  unfold blk_inherit. mrun.
+  destruct (is_nil f); [|reflexivity]. destruct (g_isfac base); reflexivity.
+Qed.
+
+Lemma blk_later_st bi fresh base serr n m s d k f e l b :
+  run_st (blk_later bi fresh base serr) (mkG n m s d k f e l b)
+  = mkG n m s d k f
+        (if is_nil e && negb (is_nil serr) then serr else e)
+        (if is_nil e && negb (is_nil serr) then g_later base
+         else if negb (is_nil serr) then g_later base ++ [serr] else g_later base) b.
+Proof.
+  unfold blk_later. mrun.
+  destruct (is_nil e && negb (is_nil serr)); [reflexivity|].
+  destruct (negb (is_nil serr)); reflexivity.
+Qed.
+
+Lemma blk_stack_st fresh stt site derived n m s d k f e l b :
+  run_st (blk_stack fresh stt site derived) (mkG n m s d k f e l b)
+  = if match k with Some _ => true | None => false end || stack_type_eqb stt NoStack
+       || (stack_type_eqb stt SourceStack && nonempty s)
+    then mkG n m s d k f e l b
+    else if is_empty s
+         then mkG n m derived d (if stack_type_eqb stt SourceStack then None else Some site) f e l b
+         else mkG n m s d (Some site) f e l b.
+Proof.
+  destruct k as [k0|], stt, s; reflexivity.
+Qed.
+
+(* ---------------------------------------------------------------- ERASURE: the object built
+   by the instrumented program is clone_base, for all arguments *)
+Lemma clone_base_tr_fst bi fresh base bp ep stt dtag src ext serr site derived :
+  fst (clone_base_tr bi fresh base bp ep stt dtag src ext serr site derived)
+  = run_st (clone_base_prog bi fresh base bp ep stt dtag src ext serr site derived) zero_gerr.
+Proof.
+  unfold clone_base_tr, run_st.
+  destruct (clone_base_prog bi fresh base bp ep stt dtag src ext serr site derived zero_gerr)
+    as [[u c] t]. reflexivity.
+Qed.
+
+Lemma clone_base_tr_snd bi fresh base bp ep stt dtag src ext serr site derived :
+  snd (clone_base_tr bi fresh base bp ep stt dtag src ext serr site derived)
+  = run_tr (clone_base_prog bi fresh base bp ep stt dtag src ext serr site derived) zero_gerr.
+Proof.
+  unfold clone_base_tr, run_tr.
+  destruct (clone_base_prog bi fresh base bp ep stt dtag src ext serr site derived zero_gerr)
+    as [[u c] t]. reflexivity.
+Qed.
+
+Theorem clone_base_tr_erasure bi fresh base bp ep stt dtag src ext serr site derived :
+  fst (clone_base_tr bi fresh base bp ep stt dtag src ext serr site derived)
+  = clone_base base bp ep stt dtag src ext serr site derived.
+Proof.
+  rewrite clone_base_tr_fst. unfold clone_base_prog.
+  rewrite bind_st, blk_fref_st, blk_fref_val.
+  rewrite !seq_st.
+  rewrite blk_literal_st, blk_source_st, blk_dtag_st, blk_msg_st, blk_inherit_st, blk_later_st,
+    blk_stack_st.
+  reflexivity.
+Qed.
+
+(* ---------------------------------------------------------------- the trace only touches
+   *base (reads) and the clone (reads and writes) *)
+Definition m_sat {A : Type} (P : access -> Prop) (m : M A) : Prop :=
+  forall c x, In x (run_tr m c) -> P x.
+
+Lemma sat_ret A (P : access -> Prop) (a : A) : m_sat P (ret a).
+Proof. intros c x []. Qed.
+
+Lemma sat_bind A B (P : access -> Prop) (m : M A) (k : A -> M B) :
+  m_sat P m -> (forall a, m_sat P (k a)) -> m_sat P (bind m k).
+Proof.
+  intros Hm Hk c x. rewrite bind_tr, in_app_iff. intros [H|H]; [exact (Hm _ _ H)|exact (Hk _ _ _ H)].
+Qed.
+
+Lemma sat_seq A (P : access -> Prop) (m : M unit) (k : M A) : m_sat P m -> m_sat P k -> m_sat P (andthen m k).
+Proof. intros Hm Hk. apply sat_bind; [exact Hm|intros _; exact Hk]. Qed.
+
+Lemma sat_rd_base (P : access -> Prop) bi base f : P (Rd bi f) -> m_sat P (rd_base bi base f).
+Proof. intros H c x [<-|[]]. exact H. Qed.
+
+Lemma sat_rd_clone (P : access -> Prop) fresh f : P (Rd fresh f) -> m_sat P (rd_clone fresh f).
+Proof. intros H c x [<-|[]]. exact H. Qed.
+
+Lemma sat_wr_clone (P : access -> Prop) fresh f v : P (Wr fresh f) -> m_sat P (wr_clone fresh f v).
+Proof. intros H c x [<-|[]]. exact H. Qed.
+
+Lemma sat_alloc (P : access -> Prop) fresh : (forall f, P (Wr fresh f)) -> m_sat P (alloc_clone fresh).
+Proof.
+  intros H c x I. unfold run_tr, alloc_clone in I. simpl in I.
+  repeat (destruct I as [<-|I]; [apply H|]). destruct I.
+Qed.
+
+(* [side] discharges the obligation P (access) of a primitive *)
+Ltac sat_tac side :=
+  repeat first
+    [ apply sat_ret
+    | apply sat_rd_base; side | apply sat_rd_clone; side | apply sat_wr_clone; side
+    | apply sat_alloc; intros ?; side
+    | apply sat_seq
+    | apply sat_bind; [|intros ?]
+    | match goal with
+      | |- m_sat _ (if ?b then _ else _) => destruct b
+      | |- m_sat _ (match ?k with Some _ => _ | None => _ end) => destruct k
+      end ].
+
+Definition m_local {A : Type} (bi fresh : nat) (m : M A) : Prop := m_sat (local_access bi fresh) m.
+
+Lemma clone_base_prog_local bi fresh base bp ep stt dtag src ext serr site derived :
+  m_local bi fresh (clone_base_prog bi fresh base bp ep stt dtag src ext serr site derived).
+Proof.
+  unfold m_local, clone_base_prog, blk_fref, blk_literal, blk_source, blk_dtag, blk_msg,
+    blk_inherit, blk_later, blk_stack, skip.
+  sat_tac ltac:(simpl; auto).
+Qed.
+
+(* every write of the trace targets the fresh cell; every read targets *base or the fresh cell *)
+Theorem clone_base_tr_local bi fresh base bp ep stt dtag src ext serr site derived x :
+  In x (snd (clone_base_tr bi fresh base bp ep stt dtag src ext serr site derived)) ->
+  local_access bi fresh x.
+Proof. rewrite clone_base_tr_snd. apply clone_base_prog_local. Qed.
+
+Corollary clone_base_tr_writes_fresh bi fresh base bp ep stt dtag src ext serr site derived c f :
+  In (Wr c f) (snd (clone_base_tr bi fresh base bp ep stt dtag src ext serr site derived)) ->
+  c = fresh.
+Proof. intros H. exact (clone_base_tr_local _ _ _ _ _ _ _ _ _ _ _ _ _ H). Qed.
+
+Corollary clone_base_tr_reads bi fresh base bp ep stt dtag src ext serr site derived c f :
+  In (Rd c f) (snd (clone_base_tr bi fresh base bp ep stt dtag src ext serr site derived)) ->
+  c = bi \/ c = fresh.
+Proof. intros H. exact (clone_base_tr_local _ _ _ _ _ _ _ _ _ _ _ _ _ H). Qed.
+
+(* the read of base.isFactory in the inheritance block is dead code when CloneBase is reached
+   through a method (`clone.factoryRef == nil` is false: fRef was made from a non-nil pointer) *)
+Definition not_isfac_read (x : access) : Prop :=
+  match x with Rd _ FIsFac => False | _ => True end.
+
+Lemma blk_inherit_tr_nonnil bi fresh base ep n m s d k f e l b :
+  is_nil f = false -> run_tr (blk_inherit bi fresh base ep) (mkG n m s d k f e l b) = [Rd fresh FFref].
+Proof. intros H. unfold blk_inherit, run_tr, bind, rd_clone. simpl. rewrite H. reflexivity. Qed.
+
+Lemma clone_base_tr_no_isfac_read bi fresh base bp ep stt dtag src ext serr site derived x :
+  is_nil bp = false ->
+  In x (snd (clone_base_tr bi fresh base bp ep stt dtag src ext serr site derived)) ->
+  not_isfac_read x.
+Proof.
+  intros NB. rewrite clone_base_tr_snd. unfold clone_base_prog.
+  rewrite bind_tr, !seq_tr, blk_fref_st, blk_fref_val.
+  rewrite blk_literal_st, blk_source_st, blk_dtag_st, blk_msg_st.
+  rewrite blk_inherit_tr_nonnil.
+  2:{ destruct (is_nil (g_fref base)) eqn:E; [exact NB|exact E]. }
+  rewrite !in_app_iff.
+  assert (S : forall A (m : M A) c, m_sat not_isfac_read m -> In x (run_tr m c) -> not_isfac_read x)
+    by (intros A m c H I; exact (H _ _ I)).
+  intros [H|[H|[H|[H|[H|[H|[H|H]]]]]]]; revert H.
+  - apply S. unfold blk_fref. sat_tac ltac:(exact I).
+  - apply S. unfold blk_literal. sat_tac ltac:(exact I).
+  - apply S. unfold blk_source, skip. sat_tac ltac:(exact I).
+  - apply S. unfold blk_dtag, skip. sat_tac ltac:(exact I).
+  - apply S. unfold blk_msg, skip. sat_tac ltac:(exact I).
+  - intros [<-|[]]. exact I.
+  - apply S. unfold blk_later, skip. sat_tac ltac:(exact I).
+  - apply S. unfold blk_stack, skip. sat_tac ltac:(exact I).
+Qed.
+
+(* ---------------------------------------------------------------- calls, chains, goroutines *)
+Lemma ext_accesses_local i fresh x : In x (ext_accesses i fresh) -> local_access i fresh x.
+Proof.
+  unfold ext_accesses. simpl.
+  intros H. repeat (destruct H as [<-|H]; [simpl; auto|]). destruct H.
+Qed.
+
+(* erasure for a method call: the instrumented call computes [call] *)
+Theorem call_tr_erasure xw st v m a : fst (call_tr xw st v m a) = call xw st v m a.
+Proof.
+  destruct v as [|i|i|]; simpl; try reflexivity.
+  - destruct (nth_error st i) as [c|]; [|reflexivity].
+    destruct (w_guard (base_wiring m) && is_gerr_val (a_err a)); [reflexivity|].
+    unfold apply_wiring_tr, apply_wiring.
+    rewrite <- (clone_base_tr_erasure i (length st)).
+    destruct (clone_base_tr _ _ _ _ _ _ _ _ _ _ _ _) as [g t]. reflexivity.
+  - destruct (nth_error st i) as [c|]; [|reflexivity].
+    destruct (c_x c) as [x|]; [|reflexivity].
+    destruct (w_guard (xw m) && is_gerr_val (a_err a)); [reflexivity|].
+    unfold apply_wiring_tr, apply_wiring.
+    rewrite <- (clone_base_tr_erasure i (length st)).
+    destruct (clone_base_tr _ _ _ _ _ _ _ _ _ _ _ _) as [g t]. reflexivity.
+Qed.
+
+(* a call reads only its receiver's cell (and the cell it builds) and writes only the cell it
+   builds, which is the next free one *)
+Lemma call_accesses_local xw st v m a x :
+  In x (call_accesses xw st v m a) ->
+  exists i, as_gerror v = Some i /\ i < length st /\ local_access i (length st) x.
+Proof.
+  unfold call_accesses. destruct v as [|i|i|]; simpl; try contradiction.
+  - destruct (nth_error st i) as [c|] eqn:E; [|contradiction].
+    destruct (w_guard (base_wiring m) && is_gerr_val (a_err a)); [contradiction|].
+    unfold apply_wiring_tr.
+    destruct (clone_base_tr _ _ _ _ _ _ _ _ _ _ _ _) as [g t] eqn:T. simpl. intros H.
+    exists i. split; [reflexivity|]. split; [apply nth_error_Some; congruence|].
+    assert (t = snd (clone_base_tr i (length st) (c_g c) (VG i) (VG i) (w_stack (base_wiring m))
+       (eval_a a (w_dtag (base_wiring m))) (eval_a a (w_src (base_wiring m)))
+       (eval_a a (w_msg (base_wiring m))) (eval_e a (w_serr (base_wiring m))) (a_site a) (a_derived a)))
+      as -> by (rewrite T; reflexivity).
+    exact (clone_base_tr_local _ _ _ _ _ _ _ _ _ _ _ _ _ H).
+  - destruct (nth_error st i) as [c|] eqn:E; [|contradiction].
+    destruct (c_x c) as [xi|]; [|contradiction].
+    destruct (w_guard (xw m) && is_gerr_val (a_err a)); [contradiction|].
+    unfold apply_wiring_tr.
+    destruct (clone_base_tr _ _ _ _ _ _ _ _ _ _ _ _) as [g t] eqn:T. simpl. intros H.
+    exists i. split; [reflexivity|]. split; [apply nth_error_Some; congruence|].
+    apply in_app_iff in H. destruct H as [H|H]; [|exact (ext_accesses_local _ _ _ H)].
+    assert (t = snd (clone_base_tr i (length st) (c_g c) (VG i) (VX i) (w_stack (xw m))
+       (eval_a a (w_dtag (xw m))) (eval_a a (w_src (xw m)))
+       (eval_a a (w_msg (xw m))) (eval_e a (w_serr (xw m))) (a_site a) (a_derived a)))
+      as -> by (rewrite T; reflexivity).
+    exact (clone_base_tr_local _ _ _ _ _ _ _ _ _ _ _ _ _ H).
+Qed.
+
+Lemma local_no_shared_write bi fresh n nh (l : list access) :
+  (forall x, In x l -> local_access bi fresh x) -> n <= fresh ->
+  existsb (is_shared_write n nh) l = false.
+Proof.
+  intros H Hn. destruct (existsb (is_shared_write n nh) l) eqn:E; [|reflexivity].
+  apply existsb_exists in E. destruct E as [x [Hx Hw]]. specialize (H x Hx).
+  destruct x as [c f|c f|ar k|ar k]; simpl in *; try discriminate; try contradiction.
+  apply Nat.ltb_lt in Hw. lia.
+Qed.
+
+Lemma call_no_shared_write xw st v m a n nh :
+  n <= length st -> existsb (is_shared_write n nh) (call_accesses xw st v m a) = false.
+Proof.
+  intros H. destruct (existsb (is_shared_write n nh) (call_accesses xw st v m a)) eqn:E; [|reflexivity].
+  apply existsb_exists in E. destruct E as [x [Hx Hw]].
+  destruct (call_accesses_local _ _ _ _ _ _ Hx) as [i [_ [_ L]]].
+  destruct x as [c f|c f|ar k|ar k]; simpl in *; try discriminate; try contradiction.
+  apply Nat.ltb_lt in Hw. lia.
+Qed.
+
+Theorem derive_tr_erasure xw ch : forall st v, fst (derive_tr xw st v ch) = derive xw st v ch.
+Proof.
+  induction ch as [|[m a] ch IH]; intros st v; simpl; [reflexivity|].
+  rewrite <- call_tr_erasure. destruct (call_tr xw st v m a) as [[[st' v']|] t]; simpl; [|reflexivity].
+  rewrite <- IH. destruct (derive_tr xw st' v' ch) as [res t']. reflexivity.
+Qed.
+
+Lemma call_tr_extends xw st v m a st' v' t :
+  call_tr xw st v m a = (Some (st', v'), t) -> exists ext, st' = st ++ ext.
+Proof.
+  intros H. apply (call_extends xw st v m a st' v'). rewrite <- call_tr_erasure, H. reflexivity.
+Qed.
+
+Lemma derive_tr_extends xw ch st v st' v' t :
+  derive_tr xw st v ch = (Some (st', v'), t) -> exists ext, st' = st ++ ext.
+Proof.
+  intros H. apply (derive_extends xw ch st v st' v'). rewrite <- derive_tr_erasure, H. reflexivity.
+Qed.
+
+Lemma derive_no_shared_write xw ch : forall st v n nh,
+  n <= length st -> existsb (is_shared_write n nh) (derive_accesses xw st v ch) = false.
+Proof.
+  unfold derive_accesses.
+  induction ch as [|[m a] ch IH]; intros st v n nh H; simpl; [reflexivity|].
+  pose proof (call_no_shared_write xw st v m a n nh H) as C. unfold call_accesses in C.
+  destruct (call_tr xw st v m a) as [[[st' v']|] t] eqn:E; simpl in *; [|exact C].
+  specialize (IH st' v' n nh).
+  destruct (derive_tr xw st' v' ch) as [res t']. simpl in *.
+  rewrite existsb_app, C. simpl. apply IH.
+  destruct (call_tr_extends _ _ _ _ _ _ _ _ E) as [ext ->]. rewrite app_length. lia.
+Qed.
+
+Lemma thread_no_shared_write xw jobs : forall st n nh,
+  n <= length st -> existsb (is_shared_write n nh) (thread_accesses xw st jobs) = false.
+Proof.
+  unfold thread_accesses.
+  induction jobs as [|[v ch] jobs IH]; intros st n nh H; simpl; [reflexivity|].
+  pose proof (derive_no_shared_write xw ch st v n nh H) as C. unfold derive_accesses in C.
+  destruct (derive_tr xw st v ch) as [[[st' v']|] t] eqn:E; simpl in *; [|exact C].
+  specialize (IH st' n nh).
+  destruct (thread_tr xw st' jobs) as [res t']. simpl in *.
+  rewrite existsb_app, C. simpl. apply IH.
+  destruct (derive_tr_extends _ _ _ _ _ _ _ E) as [ext ->]. rewrite app_length. lia.
+Qed.
+
+(* the store a goroutine ends with is what running its chains with [derive] gives *)
+Fixpoint thread_run (xw : method -> wiring) (st : store) (jobs : list (val * list step))
+  : option store :=
+  match jobs with
+  | [] => Some st
+  | (v, ch) :: rest =>
+      match derive xw st v ch with
+      | Some (st', _) => thread_run xw st' rest
+      | None => None
+      end
+  end.
+
+Theorem thread_tr_erasure xw jobs : forall st, fst (thread_tr xw st jobs) = thread_run xw st jobs.
+Proof.
+  induction jobs as [|[v ch] jobs IH]; intros st; simpl; [reflexivity|].
+  rewrite <- derive_tr_erasure. destruct (derive_tr xw st v ch) as [[[st' v']|] t]; simpl; [|reflexivity].
+  rewrite <- IH. destruct (thread_tr xw st' jobs) as [res t']. reflexivity.
+Qed.
+
+Lemma no_shared_write_In n nh l x :
+  existsb (is_shared_write n nh) l = false -> In x l -> is_shared_write n nh x = false.
+Proof.
+  intros E I. destruct (is_shared_write n nh x) eqn:W; [|reflexivity].
+  assert (existsb (is_shared_write n nh) l = true) by (apply existsb_exists; eauto). congruence.
+Qed.
+
+(* a goroutine's trace consists of field accesses only (backing arrays: GErrSlice.v) *)
+Lemma conflict_needs_shared_write n nh x y :
+  conflict n nh x y -> is_shared_write n nh x = true \/ is_shared_write n nh y = true.
+Proof.
+  destruct x as [c f|c f|a k|a k], y as [d g|d g|b j|b j]; simpl; try contradiction;
+    intros [E [_ L]]; subst; try (left; apply Nat.ltb_lt; exact L); right; apply Nat.ltb_lt; exact L.
+Qed.
+
+Lemma object_conflict_needs_shared_write n nh x y :
+  object_conflict n x y -> is_shared_write n nh x = true \/ is_shared_write n nh y = true.
+Proof.
+  destruct x as [c f|c f|a k|a k], y as [d g|d g|b j|b j]; simpl; try contradiction;
+    intros [E L]; subst; try (left; apply Nat.ltb_lt; exact L); right; apply Nat.ltb_lt; exact L.
 Qed.
 
 (* any two goroutines deriving from a shared initial store: no conflicting pair of accesses *)
-Lemma threads_race_free xw st jobs1 jobs2 x y :
+Theorem threads_race_free xw st nh jobs1 jobs2 x y :
   In x (thread_accesses xw st jobs1) -> In y (thread_accesses xw st jobs2) ->
-  ~ conflict (length st) x y.
+  ~ conflict (length st) nh x y.
 Proof.
   intros Hx Hy C.
-  pose proof (thread_no_shared_write xw jobs1 st (length st) (le_n _)) as N1.
-  pose proof (thread_no_shared_write xw jobs2 st (length st) (le_n _)) as N2.
-  assert (W : forall l c, existsb (is_shared_write (length st)) l = false -> In (Wr c) l -> c < length st -> False).
-  { intros l c E I L. assert (existsb (is_shared_write (length st)) l = true).
-    { apply existsb_exists. exists (Wr c). split; [exact I|]. simpl. apply Nat.ltb_lt. exact L. }
-    congruence. }
-  destruct x as [c|c], y as [d|d]; simpl in C; try contradiction; destruct C as [-> L].
-  - exact (W _ _ N2 Hy L).
-  - exact (W _ _ N1 Hx L).
-  - exact (W _ _ N1 Hx L).
+  pose proof (no_shared_write_In _ _ _ _ (thread_no_shared_write xw jobs1 st (length st) nh (le_n _)) Hx).
+  pose proof (no_shared_write_In _ _ _ _ (thread_no_shared_write xw jobs2 st (length st) nh (le_n _)) Hy).
+  destruct (conflict_needs_shared_write _ _ _ _ C); congruence.
+Qed.
+
+(* ... not even at the granularity of whole objects *)
+Theorem threads_object_race_free xw st jobs1 jobs2 x y :
+  In x (thread_accesses xw st jobs1) -> In y (thread_accesses xw st jobs2) ->
+  ~ object_conflict (length st) x y.
+Proof.
+  intros Hx Hy C.
+  pose proof (no_shared_write_In _ _ _ _ (thread_no_shared_write xw jobs1 st (length st) 0 (le_n _)) Hx).
+  pose proof (no_shared_write_In _ _ _ _ (thread_no_shared_write xw jobs2 st (length st) 0 (le_n _)) Hy).
+  destruct (object_conflict_needs_shared_write _ 0 _ _ C); congruence.
+Qed.
+
+(* ---------------------------------------------------------------- FactoryOf is different:
+   it writes an EXISTING cell.  Concurrently with anything that reads isFactory of the same
+   object (Is, ExtractFactoryReference, Switch) or with another FactoryOf it is a data race. *)
+Lemma factory_of_conflicts_is i n nh : i < n ->
+  exists x y, In x (factory_of_accesses i) /\ In y (is_head_accesses i) /\ conflict n nh x y.
+Proof.
+  intros H. exists (Wr i FIsFac), (Rd i FIsFac). simpl. repeat split; auto.
+Qed.
+
+Lemma factory_of_conflicts_factory_of i n nh : i < n ->
+  exists x y, In x (factory_of_accesses i) /\ In y (factory_of_accesses i) /\ conflict n nh x y.
+Proof.
+  intros H. exists (Wr i FIsFac), (Wr i FIsFac). simpl. repeat split; auto.
+Qed.
+
+(* ... and with any derivation from that object it conflicts at object granularity (the
+   derivation reads the object FactoryOf writes) *)
+Lemma factory_of_object_conflicts_call xw st i c m a :
+  nth_error st i = Some c -> (w_guard (base_wiring m) && is_gerr_val (a_err a)) = false ->
+  exists x y, In x (factory_of_accesses i) /\ In y (call_accesses xw st (VG i) m a)
+              /\ object_conflict (length st) x y.
+Proof.
+  intros E G. exists (Wr i FIsFac), (Rd i FFref). split; [left; reflexivity|].
+  assert (L : i < length st) by (apply nth_error_Some; congruence).
+  split; [|simpl; auto].
+  unfold call_accesses. simpl. rewrite E, G. unfold apply_wiring_tr.
+  match goal with |- In _ (snd (let '(g, t) := ?X in _)) =>
+    assert (S : snd X = run_tr (clone_base_prog i (length st) (c_g c) (VG i) (VG i)
+       (w_stack (base_wiring m)) (eval_a a (w_dtag (base_wiring m))) (eval_a a (w_src (base_wiring m)))
+       (eval_a a (w_msg (base_wiring m))) (eval_e a (w_serr (base_wiring m))) (a_site a) (a_derived a))
+       zero_gerr) by apply clone_base_tr_snd;
+    destruct X as [g t] end.
+  simpl in *. subst t. unfold clone_base_prog. rewrite bind_tr. apply in_or_app. left.
+  unfold blk_fref. rewrite bind_tr. apply in_or_app. left. left. reflexivity.
+Qed.
+
+(* ... while at field granularity a derivation made through one of the methods never touches
+   isFactory of its receiver: the only read of it in CloneBase is dead code there *)
+Lemma call_never_reads_isfac xw st v m a c :
+  In (Rd c FIsFac) (call_accesses xw st v m a) -> c = length st.
+Proof.
+  unfold call_accesses. destruct v as [|i|i|]; simpl; try contradiction.
+  - destruct (nth_error st i) as [ce|]; [|contradiction].
+    destruct (w_guard (base_wiring m) && is_gerr_val (a_err a)); [contradiction|].
+    unfold apply_wiring_tr.
+    destruct (clone_base_tr _ _ _ _ _ _ _ _ _ _ _ _) as [g t] eqn:T. simpl. intros H.
+    assert (t = snd (clone_base_tr i (length st) (c_g ce) (VG i) (VG i) (w_stack (base_wiring m))
+       (eval_a a (w_dtag (base_wiring m))) (eval_a a (w_src (base_wiring m)))
+       (eval_a a (w_msg (base_wiring m))) (eval_e a (w_serr (base_wiring m))) (a_site a) (a_derived a)))
+      as E by (rewrite T; reflexivity).
+    rewrite E in H. apply clone_base_tr_no_isfac_read in H; [destruct H|reflexivity].
+  - destruct (nth_error st i) as [ce|]; [|contradiction].
+    destruct (c_x ce) as [xi|]; [|contradiction].
+    destruct (w_guard (xw m) && is_gerr_val (a_err a)); [contradiction|].
+    unfold apply_wiring_tr.
+    destruct (clone_base_tr _ _ _ _ _ _ _ _ _ _ _ _) as [g t] eqn:T. simpl. intros H.
+    apply in_app_iff in H. destruct H as [H|H].
+    + assert (t = snd (clone_base_tr i (length st) (c_g ce) (VG i) (VX i) (w_stack (xw m))
+         (eval_a a (w_dtag (xw m))) (eval_a a (w_src (xw m)))
+         (eval_a a (w_msg (xw m))) (eval_e a (w_serr (xw m))) (a_site a) (a_derived a)))
+        as E by (rewrite T; reflexivity).
+      rewrite E in H. apply clone_base_tr_no_isfac_read in H; [destruct H|reflexivity].
+    + unfold ext_accesses in H. simpl in H.
+      repeat (destruct H as [H|H]; [try discriminate H; injection H as <-; reflexivity|]). destruct H.
+Qed.
+
+(* so FactoryOf on the receiver does not conflict, field by field, with a method call *)
+Lemma factory_of_no_field_conflict_with_call xw st v m a n nh i x y :
+  n <= length st ->
+  In x (factory_of_accesses i) -> In y (call_accesses xw st v m a) -> ~ conflict n nh x y.
+Proof.
+  intros Hn [<-|[]] Hy C.
+  destruct (call_accesses_local _ _ _ _ _ _ Hy) as [j [_ [L Loc]]].
+  destruct y as [d g|d g|b k|b k]; simpl in C; try contradiction.
+  - destruct C as [-> [<- Hd]]. apply call_never_reads_isfac in Hy. lia.
+  - destruct C as [-> [<- Hd]]. simpl in Loc. subst d. lia.
 Qed.
